@@ -113,7 +113,10 @@ def run_tlc(module, cfg_text, name=None, workers=None, simulate=None, depth=None
     with open(cfg, "w") as fh:
         fh.write(cfg_text)
     meta = os.path.join(d, "meta")
-    cmd = ["java", "-Xss512m", "-Xmx" + heap, "-XX:+UseParallelGC", "-cp", JAR, "tlc2.TLC",
+    if workers is None:
+        workers = NCPU
+    cmd = ["java", "-Xss512m", "-Xmx" + heap, "-XX:+UseParallelGC", "-XX:ParallelGCThreads=%d" % max(2, min(8, (workers or NCPU))),
+           "-XX:CICompilerCount=2", "-XX:TieredStopAtLevel=1" if simulate is None and False else "-XX:+TieredCompilation", "-cp", JAR, "tlc2.TLC",
            "-metadir", meta, "-config", cfg, "-noGenerateSpecTE"]
     if workers is None:
         workers = NCPU
